@@ -67,6 +67,11 @@ def cases(tier):
         cs.append(C("b/%s/tensor,carr" % f, "out = mg.%s(x, c)" % f, [("x", (2,))], carrs=[["c", [2]]], convention=conv))
         cs.append(C("b/%s/where+out" % f, "out = mg.%s(x, y, where=m, out=o)" % f, [("x", (3,)), ("y", (1,))],
                     carrs=[["o", [3]]], setup="m = np.array([True, False, True])", convention=conv))
+    # 0-d operands under a where= mask (the product with a 0-d mask is a NumPy scalar unless it is re-wrapped)
+    cs.append(C("b/multiply/where-0d", "out = mg.multiply(x, y, where=m0)", [("x", ()), ("y", ())], setup="m0 = np.array(True)"))
+    cs.append(C("u/exp/where-0d", "out = mg.exp(x, where=m0)", [("x", ())], setup="m0 = np.array(True)"))
+    cs.append(C("b/add/where-0d+out", "out = mg.add(x, y, where=m0, out=o)", [("x", ()), ("y", ())], carrs=[["o", []]], setup="m0 = np.array(True)"))
+    cs.append(C("b/multiply/where-0d-bcast", "out = mg.multiply(x, y, where=m)", [("x", ()), ("y", (2,))], setup="m = np.array([True, True])"))
     # power special cases
     for e in ("2", "3", "-1", "0.5", "1", "0", "-2", "1.5"):
         cs.append(C("b/power/x**%s" % e, "out = x ** %s" % e, [("x", (2,))]))
